@@ -1,19 +1,22 @@
 #!/bin/bash
-# usage: controltest.sh  : applies every behaviour-preserving edit in controls/quiet/*.diff to a scratch worktree of
-# /repo and requires the named checks to stay silent (exit 0, no VIOLATION / UNDECIDED).
-rc=0
+# usage: controltest.sh [name-glob] [jobs] : applies every behaviour-preserving edit in controls/quiet/*.diff to a scratch
+# worktree of /repo and requires the named checks to stay silent (exit 0, no VIOLATION / UNDECIDED).
+PAT=${1:-*}; J=${2:-4}
 mkdir -p /tmp/st
-for d in /verif/controls/quiet/*.diff; do
-  n=$(basename $d .diff)
+one() {
+  d=$1; n=$(basename $d .diff)
   checks=$(python3 -c "import json;print(' '.join(json.load(open('/verif/controls/quiet/$n.json'))['checks']))")
+  [ -n "${CHECKS:-}" ] && checks="$CHECKS"
   WT=/tmp/st/ctl.$n.$$
   git -C /repo worktree add -q --detach $WT HEAD || exit 9
-  if ! git -C $WT apply $d; then echo "CONTROL $n: patch does not apply (skipped)"; git -C /repo worktree remove --force $WT; continue; fi
+  if ! git -C $WT apply $d 2>/dev/null; then echo "CONTROL $n: patch does not apply (skipped)"; git -C /repo worktree remove --force $WT; return; fi
+  bad=""
   for c in $checks; do
-    out=$(cd /verif && VERIF_REPO=$WT VERIF_EVIDENCE_DIR=/tmp/st/ev.ctl.$$ ./check $c --tier ${TIER:-quick} 2>&1); r=$?
-    if [ $r -ne 0 ]; then echo "CONTROL $n: check $c NOT silent (exit $r)"; echo "$out" | grep -E "VIOLATION|UNDECIDED|key=" | head -5; rc=1; else echo "CONTROL $n: $c silent"; fi
+    out=$(cd /verif && VERIF_REPO=$WT VERIF_EVIDENCE_DIR=/tmp/st/ev.ctl.$n.$$ VERIF_FACTS_KEEP=24 ./check $c --tier ${TIER:-quick} 2>&1); r=$?
+    if [ $r -ne 0 ]; then bad="$bad $c"; echo "CONTROL $n: check $c NOT silent (exit $r)"; echo "$out" | grep -E "VIOLATION|UNDECIDED|key=|^  [a-z]" | head -4; fi
   done
-  git -C /repo worktree remove --force $WT
-done
-rm -rf /tmp/st/ev.ctl.$$
-exit $rc
+  [ -z "$bad" ] && echo "CONTROL $n: silent (${checks// /,})" | cut -c1-60
+  git -C /repo worktree remove --force $WT; rm -rf /tmp/st/ev.ctl.$n.$$
+}
+export -f one
+ls /verif/controls/quiet/$PAT.diff | xargs -P $J -I{} bash -c 'one {}'
